@@ -10,7 +10,7 @@ def main():
 
 %d changes written by %s sub-agents that were given only the text of one property and a scratch worktree (round 1: two per property for all
 20 properties; round 2: all 20 properties again with a request for larger shapes, unusual parameter combinations, cooperating edits at two
-sites, narrow numeric windows other than non-canonical operands, or AVX512-only branches; round 3: six properties once more with a request for
+sites, narrow numeric windows other than non-canonical operands, or AVX512-only branches; round 3: twelve properties once more with a request for
 something different from both - placement/aliasing of the caller's buffers, thread counts that do not divide the work, sizes above 2^16,
 offset patterns, rarely used overloads, or edits that keep every value right but touch an element outside the designated positions).  Each was confirmed by `seedtest.sh` in a fresh worktree (applies to HEAD, the repository suite passes 30/30 with it,
 its demonstration fails with it and passes without it), then applied to /repo, the checks were run, and /repo was restored.  All are archived
@@ -38,8 +38,13 @@ are violations only when a concrete call misbehaves (section 8.6); (6) round 3 s
 general remedy rather than a special case: loop-free index helpers are decided for *all* widths (the bit reversal is proved for every width
 1..32, which reaches transforms of 2^17..2^32 points that no executed class can), in-place uses that a signature allows (result registers =
 operand registers; a by-reference scalar inside the result array) are obligations of their own, and a read outside the designated positions -
-which changes no value - is confirmed by running the native function with the operand ending at an inaccessible page.
-''' % (len(rows), 'forty-six', '\n'.join(rows))
+which changes no value - is confirmed by running the native function with the operand ending at an inaccessible page.  The second half of
+round 3 repeated the lesson for other interfaces: placements of the caller's buffers are part of "every input" (linear_hash with the digest
+inside the input, batchInverse in place, lane and matrix kernels whose result register is an operand register are obligations now), the
+address of a buffer is an unknown multiple of its alignment (code that tests `p & 31` forks), and blocks that outlive the destructor are
+notes, not violations (no property forbids a process-lifetime cache; the change that hid state in a function-local static is caught by the
+values it produces on the next call).
+''' % (len(rows), 'fifty-two', '\n'.join(rows))
     p = os.path.join(V, 'DESIGN.md'); s = open(p).read()
     i = s.find('### 8.5 Seeded changes'); j = s.find('### 8.6 ')
     tail = s[j:] if j >= 0 else ''
